@@ -340,6 +340,20 @@ def run_clause(clause, n_examples, seed, known, rec, max_sigs=6, shrink=True,
                 reported.add(state['target'])
                 continue
             raise HarnessError('%s: flaky: %s' % (clause.name, e))
+        except Exception as e:
+            # Hypothesis 6.168's shrinker can die inside itself (seen: minimize_duplicated_choices copying a string
+            # between two text nodes with different alphabets -> ValueError in intervalsets).  A failing case is
+            # already in hand then: report it un-minimised rather than losing it to exit 2.
+            tb = e.__traceback__
+            while tb is not None and tb.tb_next is not None:
+                tb = tb.tb_next
+            fn = tb.tb_frame.f_code.co_filename if tb is not None else ''
+            if state['case'] is not None and os.sep + 'hypothesis' + os.sep in fn:
+                found.append((state['target'], state['case'],
+                              '%s (not minimised: Hypothesis shrinker error %s)' % (state['detail'], type(e).__name__)))
+                reported.add(state['target'])
+                continue
+            raise
         break
     return found
 
